@@ -28,7 +28,10 @@ HOST_NAMES = ("fields args record data params key value name id input_id populat
               "digest accumulate bisect choices hi total T _floor __class__ __dict__ __init__ __call__ __name__ __doc__ len sorted list "
               "tuple int float print type object input open range sum min max abs all any repr hash format exec eval compile globals locals "
               "vars dir getattr setattr isinstance Exception ValueError TypeError e E math random functools itertools pyab_experiment binning "
-              "typing copy sys os re json logging logger log warnings debug msg message text source expr term predicate cond group groups").split()
+              "typing copy sys os re json logging logger log warnings debug msg message text source expr term predicate cond group groups "
+              # soft keywords of the host language, and words other languages reserve for constants
+              "match case type _ __ true false null none nil undefined nan inf NaN Infinity yes no on off this super void var let const function "
+              "TRUE FALSE NULL Ellipsis NotImplemented __debug__x __name__ __file__ __builtins__").split()
 _FRAG_CACHE = []
 
 
@@ -238,12 +241,71 @@ def sweep_cases(rng, fraction=1.0):
     return cases
 
 
+def model_shaped_tuples():
+    """tuple literals shaped like the (field, value) pairs of the AST's own pydantic models (a validator that coerces such a tuple into a model
+    turns data into structure): mined from the model declarations on every run"""
+    out = []
+    L = lambda t: lit_str(t, quote='"')
+    try:
+        import pydantic
+        from pyab_experiment.data_structures import syntax_tree as st
+        models = [m for m in vars(st).values() if isinstance(m, type) and issubclass(m, pydantic.BaseModel) and m is not pydantic.BaseModel]
+    except Exception:  # noqa
+        models = []
+    field_sets = [list(getattr(m, "__fields__", {}).keys()) for m in models] + [["name"], ["id"], ["value"], ["name", "plan"]]
+    for fields in field_sets:
+        if not fields:
+            continue
+        pairs = ("tuple", [("tuple", [("lit", L(f)), ("lit", L("v%d" % i))]) for i, f in enumerate(fields)])
+        out.append(("tuple", [pairs, ("tuple", [("tuple", [("lit", L("name")), ("lit", L("unit"))])])]))
+        out.append(("tuple", [pairs]))
+        out.append(("tuple", [("tuple", [("lit", L(f)) for f in fields] + [("lit", lit_int(1))])]))
+    return out
+
+
+def huge_flat_cases(rng, full=False):
+    """flat lists far longer than anything nested: membership tuples, splitter lists and group lists of thousands of entries (a flat list is
+    not deep: a parser, a generator or the host compiler that treats its length as depth gives up on it), and ordinary programs inside sources of
+    more than 64 KiB / 1 MiB (a pre-pass or a buffer that only exists for big sources)"""
+    L = lambda t: lit_str(t, quote='"')
+    one = lambda t: ("ret", [(L(t), "1")])
+    cases = []
+    for k in ([5000, 6000, 20000] if full else [rng.choice([5000, 6000, 20000])]):
+        members = [("lit", lit_int(7 * i)) for i in range(k)]
+        cond = ("if", ("cmp", ("id", "x"), "in", ("tuple", members)), one("T"), ("else", one("F")))
+        cases.append({"prog": Program("e", None, ["u"], cond, {"u": "any", "x": "int"}), "envs": [{"u": 1, "x": v} for v in (0, 7 * (k - 1), 7 * k, 3)]})
+    for k in ([2600, 5200] if full else [rng.choice([2600, 5200])]):
+        names = ["s%04d" % i for i in range(k)]
+        cases.append({"prog": Program("e", L("s"), names, ("ret", [(L("a"), "1"), (L("b"), "1")]), {x: "any" for x in names}), "envs": [{x: 1 for x in names}]})
+    for k in ([2500, 3000] if full else [rng.choice([2500, 3000])]):
+        cases.append({"prog": Program("e", L("s"), ["u"], ("ret", [(L("g%d" % i), "1") for i in range(k)]), {"u": "any"}), "envs": [{"u": "unit%d" % j} for j in range(4)]})
+    for c in cases:
+        c["text"] = render(c["prog"], rng, "plain")
+    # big sources: the same small program behind / before a banner
+    small = Program("e", L("s\\"), ["u"], ("if", ("cmp", ("id", "x"), "in", ("tuple", [("lit", L("a\\")), ("lit", L("b/*")), ("lit", L("c")), ("lit", L("*/d")), ("lit", L("e//f"))])),
+                                          ("ret", [(L("T\\"), "1"), (L("/*"), "1")]), ("else", one("F"))), {"u": "any", "x": "str"})
+    text = render(small, rng, "plain")
+    for size in ([70000, 1100000] if full else [70000]):
+        pad = "/* " + ("banner line\n" * (size // 12)) + " */"
+        for t in (pad + "\n" + text, text + "\n" + pad, text.replace("{", "{ " + pad + " ", 1)):
+            cases.append({"prog": small, "text": t, "envs": [{"u": 1, "x": v} for v in ("a\\", "b/*", "c", "*/d", "b/**/d", "e//f", "zz")]})
+    return cases
+
+
 def membership_cases(rng, n):
     """membership tests against literal tuples of 1..24 members (all scalar literals; with an identifier; with a nested tuple), asked
     with values of every kind a caller's record can hold — also unhashable ones (a list, a dict, a set, a composite id decoded from
     JSON): `x in (...)` is an equality scan, it never hashes.  (Reference semantics only: the model has no mutable containers.)"""
     L = lambda t: lit_str(t, quote='"')
     cases = []
+    for shaped in model_shaped_tuples():
+        # the value equal to the literal tuple is a member; nothing else is; no field other than x is needed
+        def pyv(t):
+            return t[1].value if t[0] == "lit" else tuple(pyv(x) for x in t[1])
+        cond = ("if", ("cmp", ("id", "x"), "in", shaped), ("ret", [(L("T"), "1")]), ("else", ("ret", [(L("F"), "1")])))
+        prog = Program("e", None, ["u"], cond, {"u": "any", "x": "any"})
+        envs = [{"u": "u1", "x": v} for v in list(pyv(shaped))[:2] + ["unit", "alice", "v0", 7, ("name", "unit")]]
+        cases.append({"prog": prog, "text": render(prog, rng, "plain"), "envs": envs})
     for _ in range(n):
         k = rng.choice([1, 1, 2, 3, 4, 5, 8, 11, 12, 13, 16, 24, 31, 32, 33, 34, 48, 49, 50, 63, 64, 65, 66, 100, 129])
         kind = rng.choice(["int", "str", "str", "mixed"])
